@@ -223,6 +223,61 @@ static void check_views(Ctx &c, const std::string &fmt)
     }
 }
 
+// argument values the token stages do not have: code points at and beyond every {c} boundary in every integer / character
+// type, and text arguments made of bytes >= 0x80 (Latin-1 text for format_latin_1, malformed UTF-8 under the lenient modes)
+static void check_values(Ctx &c, const std::string &fmt)
+{
+    const char *p = g_arena.place(fmt.c_str(), fmt.size() + 1);
+    static const char HI5[] = "\xA3\xA9\xB0\xB1\xB2", HI2[] = "\x80\x80", HIMIX[] = "\xBF\xBFz\xC3";
+    for (int k = 0; k < 14; ++k) {
+        vf::events_reset();
+        vf::Outcome o = vf::guard([&] {
+            switch (k) {
+            case 0: (void)ST::format(p, char16_t(0xD800)); break;
+            case 1: (void)ST::format(p, char16_t(0xDFFF)); break;
+            case 2: (void)ST::format(p, char32_t(0x110000)); break;
+            case 3: (void)ST::format(p, char32_t(0xDC00)); break;
+            case 4: (void)ST::format(p, wchar_t(0xD800)); break;
+            case 5: (void)ST::format(p, -1); break;
+            case 6: (void)ST::format(p, 0xD800); break;
+            case 7: (void)ST::format(p, (long long)0x100000041LL); break;
+            case 8: (void)ST::format(p, std::numeric_limits<long long>::min()); break;
+            case 9: (void)ST::format_latin_1(p, HI5); break;
+            case 10: (void)ST::format(ST::substitute_invalid, p, HI2); break;
+            case 11: (void)ST::format(ST::assume_valid, p, HI5); break;
+            case 12: (void)ST::format(ST::substitute_invalid, p, std::string(HIMIX)); break;
+            default: (void)ST::format(p, ST::string::from_validated(HI5, 5)); break;
+            }
+        });
+        VF_COUNT("ops");
+        VF_COUNT("validated");
+        static const char *VN[14] = {"char16_t D800", "char16_t DFFF", "char32_t 110000", "char32_t DC00", "wchar_t D800", "int -1", "int 0xD800",
+                                     "long long 2^32+0x41", "LLONG_MIN", "format_latin_1 + high bytes", "substitute_invalid + continuation bytes",
+                                     "assume_valid + high bytes", "substitute_invalid + std::string of continuation bytes", "ST::string of continuation bytes"};
+        bool expected_assert = o.kind == vf::EX_ASSERT && o.what.find(CHAR_PAD_MSG) != std::string::npos && k <= 8 &&
+                               ref::contract_assert_possible(ref::parse(fmt), {true});
+        switch (o.kind) {
+        case vf::OK: VF_COUNT("out:string"); break;
+        case vf::EX_BADFORMAT: VF_COUNT("out:bad_format"); break;
+        case vf::EX_OUT_OF_RANGE: VF_COUNT("out:out_of_range"); break;
+        case vf::EX_UNICODE: VF_COUNT("out:unicode_error"); break;
+        default:
+            if (expected_assert) {
+                VF_COUNT("out:contract-assert(char-padding)");
+                break;
+            }
+            vf::count_dyn("out:VIOLATION");
+            c.fail(strf("argument-value:%s:%s", k <= 8 ? "code-point-boundary" : "high-byte-text",
+                        o.kind == vf::EX_ASSERT ? ("assert:" + assert_text(o.what)).c_str() : vf::outkind_name(o.kind)),
+                   strf("format %s with %s: %s", vf::vis(fmt).c_str(), VN[k], o.str().c_str()));
+        }
+        if (vf::events_total()) {
+            c.fail(std::string("heap:") + vf::g_alloc.first_event, strf("allocator event while formatting %s with %s", vf::vis(fmt).c_str(), VN[k]));
+            vf::events_reset();
+        }
+    }
+}
+
 static std::string describe_fmt(const std::string &s)
 {
     return strf("format[%zu]=%s hex=%s ; argument lists: (), (65), (65,\"str\"), (1e-5,ST::string(\"st\"),'Q'), (ULLONG_MAX), (L\"w\\u00e9\"), (true), "
@@ -403,10 +458,10 @@ static void build(vf::Plan &plan, const vf::Opts &o)
         static const char *ALIGN[3] = {"", "<", ">"};
         static const char *PAD[4] = {"", "_*", "0", "_0"};
         static const char *CLS[10] = {"", "d", "x", "X", "o", "b", "c", "f", "e", "E"};
-        static const char *PREC[3] = {"", ".0", ".3"};
+        static const char *PREC[4] = {"", ".0", ".3", ".1"};
         static const char *LIT[2] = {"", "ab"};
         const unsigned W = o.thorough() ? 72 : 24;  // widths 0..W-1 (0 = none): every distance to every natural length
-        uint64_t count = (uint64_t)3 * 4 * 2 * 2 * W * 3 * 10 * 2;
+        uint64_t count = (uint64_t)3 * 4 * 2 * 2 * W * 4 * 10 * 2;
         auto mk = [W](uint64_t i) {
             std::string f = LIT[vf::take(i, 2)];
             f += "{";
@@ -416,7 +471,7 @@ static void build(vf::Plan &plan, const vf::Opts &o)
             if (vf::take(i, 2)) f += "#";
             unsigned w = (unsigned)vf::take(i, W);
             if (w) f += std::to_string(w);
-            f += PREC[vf::take(i, 3)];
+            f += PREC[vf::take(i, 4)];
             f += CLS[vf::take(i, 10)];
             f += "}";
             return f;
@@ -427,6 +482,7 @@ static void build(vf::Plan &plan, const vf::Opts &o)
                        std::string s = mk(i);
                        check_format(c, &s, N_LISTS);
                        check_views(c, s);
+                       check_values(c, s);
                    },
                    [mk](uint64_t i) { return describe_fmt(mk(i)) + " ; and with unterminated string_view arguments of every width"; })
             .case_timeout_s = 5;
